@@ -77,17 +77,24 @@ class World2:
         s.incarnation += 1
         s.reader = s.writer = None
 
+    def _spin(self):
+        for s in (self.a, self.b):
+            if s.reader is not None and s.reader.livelocked:
+                self.livelock = True
+
     def run(self):
         try:
             self.loop.run_ready(RUN_LIMIT)
         except LiveLock:
             self.livelock = True
+        self._spin()
 
     def advance(self, dt):
         try:
             self.loop.advance(dt, RUN_LIMIT)
         except LiveLock:
             self.livelock = True
+        self._spin()
 
     # ------------------------------------------------------------------
     def connected(self, x):
@@ -159,6 +166,8 @@ class World2:
             elif kind == "reset":
                 r.set_exception(ConnectionResetError("reset by peer"))
             elif kind == "oserr":
+                r.set_exception(OSError(113, "No route to host"))
+            elif kind == "timeout":
                 r.set_exception(TimeoutError("timed out"))
             if s.writer is not None:
                 s.writer.fail(ConnectionResetError)
